@@ -72,6 +72,7 @@ type Options struct {
 	Product  string
 	Suffix   string // region suffix ("" = none)
 	Strict   bool   // compare with the model's predicted calls/outcomes and report drift
+	IFail    int    // per-mille probability that an operation gets an injected secret-allocation or AEAD failure
 }
 
 type opResult struct {
@@ -238,6 +239,13 @@ func (r *runner) startOp(p *proc, st Step) {
 		}
 	}
 	r.w.Emit(ev)
+	if r.opt.IFail > 0 && r.rng.Intn(1000) < r.opt.IFail {
+		if r.rng.Intn(2) == 0 {
+			p.sf.FailNext = 1 + r.rng.Intn(4)
+		} else {
+			p.crypto.FailNext = 1 + r.rng.Intn(4)
+		}
+	}
 	p.busy = true
 	go func() {
 		var res opResult
@@ -358,7 +366,7 @@ func (r *runner) finishOp(p *proc, exp *Step, first *opResult) {
 	}
 	ev := fakes.Event{"e": "ret", "p": p.name, "kind": res.kind, "op": p.curOp, "ok": res.ok, "err": res.err,
 		"ikCreated": int64(0), "ikKid": 0, "ikid": p.curIKID, "chain": true, "fresh": true, "payload": true, "panic": res.panic,
-		"dirty": []string{}, "drkLive": 0, "opLive": 0, "live": 0}
+		"dirty": []string{}, "drkLive": 0, "opLive": 0, "live": 0, "taint": []string{}}
 	if d := r.w.TakeDirty(p.curOp); len(d) > 0 {
 		ev["dirty"] = d
 	}
@@ -387,7 +395,7 @@ func (r *runner) finishOp(p *proc, exp *Step, first *opResult) {
 	live := p.sf.Live()
 	ev["live"] = len(live)
 	n := 0
-	dup := 0
+	dupKids := []int{}
 	seen := map[string]int{}
 	for _, s := range live {
 		if s.Op == p.curOp {
@@ -395,11 +403,13 @@ func (r *runner) finishOp(p *proc, exp *Step, first *opResult) {
 		}
 		seen[s.FP]++
 		if seen[s.FP] == 2 {
-			dup++
+			dupKids = append(dupKids, r.w.Kid(s.FP))
 		}
 	}
 	ev["opLive"] = n
-	ev["dupLive"] = dup
+	ev["dupLive"] = len(dupKids)
+	ev["dupKids"] = dupKids
+	ev["bound"] = r.liveBound(p)
 	r.w.Emit(ev)
 	// remember the record under the model's name for it
 	if exp != nil && exp.Kind == "Enc" && res.kind == "Enc" && res.ok && exp.Ok && exp.Rec != nil {
@@ -412,6 +422,24 @@ func (r *runner) finishOp(p *proc, exp *Step, first *opResult) {
 			r.drift = append(r.drift, fmt.Sprintf("%s Enc: real record names IK created=%d, model %d", p.curOp, res.drr.Key.ParentKeyMeta.Created-vrt.Base, exp.Rec.IKCreated))
 		}
 	}
+}
+
+// liveBound is the number of secrets the process's caches are entitled to hold right now (-1: unbounded policy).
+func (r *runner) liveBound(p *proc) int {
+	if r.opt.Variant == "" || r.opt.Variant == "simple" || r.opt.Capacity == 0 {
+		return -1
+	}
+	b := 0
+	if p.cfg.SK {
+		b += r.opt.Capacity
+	}
+	switch p.cfg.IK {
+	case "shared":
+		b += r.opt.Capacity
+	case "session":
+		b += r.opt.Capacity * len(p.sessions)
+	}
+	return b
 }
 
 func (r *runner) liveWithKid(p *proc, kid int) int {
@@ -606,7 +634,7 @@ func (r *runner) settle(p *proc) int {
 // ---------------------------------------------------------------------------------------------- batch entry points
 
 // Replay reads cases (TLC output) and writes the concatenated trace.
-func Replay(inPath, tracePath, outPath string, opt Options, variants []string) error {
+func Replay(inPath, tracePath, outPath string, opt Options, variants []string, capacities []int) error {
 	in, err := vutil.OpenIn(inPath)
 	if err != nil {
 		return err
@@ -632,6 +660,9 @@ func Replay(inPath, tracePath, outPath string, opt Options, variants []string) e
 		o.Seed = opt.Seed*1_000_003 + int64(n)
 		if len(variants) > 0 {
 			o.Variant = variants[n%len(variants)]
+		}
+		if len(capacities) > 0 {
+			o.Capacity = capacities[(n/7)%len(capacities)]
 		}
 		evs, drift, fatal := Run(&c, o)
 		mu.Lock()
